@@ -469,12 +469,18 @@ def exactScalar : FieldDecl → Bool
   | .enumCls _ names => !names.isEmpty
   | _ => false
 
-/-- the exact fragment at field level: exact scalars, and homogeneous `Array[X]` / `Tuple[X]` (no
-    `uniqueItems`, any size bounds) over it, at any depth.  Positional items, sized or key-constrained
-    Maps are NOT exact (findings exact:positional-shorter, exact:map-size, exact:map-key-constraint) -/
+mutual
+/-- the exact fragment at field level: exact scalars, homogeneous `Array[X]` / `Tuple[X]` (no
+    `uniqueItems`, any size bounds) over it, and nested Structure classes (by `$ref`; no defaults, the
+    class accepts its own instances, required fields declared) whose fields are in it — at any depth.
+    Positional items, sized or key-constrained Maps are NOT exact (findings exact:positional-shorter,
+    exact:map-size, exact:map-key-constraint) -/
 def exactF : FieldDecl → Bool
   | .seqOf k f sz => k == .list && !sz.uniq && exactF f
   | .tupleOf f u => !u && exactF f
+  | .struct c fields defaults =>
+    !c.inline && defaults.isEmpty && c.accepts.contains c.name && nodupS (fields.map (·.1))
+    && c.required.all (fields.map (·.1)).contains && exactFields fields
   | .number o => exactScalar (.number o)
   | .integer o => exactScalar (.integer o)
   | .float o => exactScalar (.float o)
@@ -483,12 +489,31 @@ def exactF : FieldDecl → Bool
   | .enumLit vs => exactScalar (.enumLit vs)
   | .enumCls c names => exactScalar (.enumCls c names)
   | _ => false
-
+termination_by structural f => f
 def exactFields : List (String × FieldDecl) → Bool
   | [] => true
   | (_, f) :: ps => exactF f && exactFields ps
+termination_by structural ps => ps
+end
 
-/-- flat classes over the exact field fragment (scalars, Array[X], Tuple[X]), no defaults, not a field wrapper -/
+mutual
+/-- a JSON document as Python reads it: every object key is a string -/
+def jsonDoc : PyVal → Bool
+  | .list xs => jsonDocL xs
+  | .dict kvs => jsonDocP kvs
+  | _ => true
+termination_by structural v => v
+def jsonDocL : List PyVal → Bool
+  | [] => true
+  | x :: xs => jsonDoc x && jsonDocL xs
+termination_by structural xs => xs
+def jsonDocP : List (PyVal × PyVal) → Bool
+  | [] => true
+  | (k, v) :: rest => isStrJ k && jsonDoc v && jsonDocP rest
+termination_by structural kvs => kvs
+end
+
+/-- classes over the exact field fragment (scalars, Array[X], Tuple[X], nested classes), no defaults, not a field wrapper -/
 def inExactFragment (cls : FieldDecl) : Bool :=
   match cls with
   | .struct c fields defaults =>
